@@ -141,6 +141,8 @@ def p2_extractall(chk):
     install_zip(ex)
     fn = ex.function(NUWIKI, "extractall")
     ex.contracts[NUWIKI + ":extract_member"] = extract_member_contract
+    # helpers that remove files are file-system effects like any other (their path must lie inside the destination too)
+    ex.contracts["mwlib/utils/unorganized.py:safe_unlink"] = lambda I, path: fsmodel.trace(I).append(("unlink", path, None))
     # the loop over infolist(): concrete unrolling is impossible (unbounded) -> invariant:
     # dst unchanged (it is not assigned in the body) and all effects so far inside (ghost)
     ex.loopspecs[(NUWIKI + ":extractall", 0)] = LoopSpec(
@@ -169,7 +171,14 @@ def p2_extractall(chk):
             I.oblige("only_rejection_or_io_error", out.raised("RuntimeError") or out.raised("OSError"))
         I.oblige("no_direct_fs_effect", len(effects(I)) == 0)
 
-    chk.prove("nuwiki.extractall", harness, ex, targets=[fn])
+    chk.prove("nuwiki.extractall", harness, ex, targets=[fn], replay=replay_extractall)
+
+
+def replay_extractall(model, obligation):
+    n, distinct, rejected, failures, samples, mc = bounded_run(2, validate_models=False)
+    if failures:
+        return True, dict(failures[0]["witness"], detail=failures[0]["detail"]), failures[0]["class"]
+    return False, {"archives_tried": n}, None
 
 
 def run(chk):
@@ -186,7 +195,8 @@ def run(chk):
 # ---------------------------------------------------------------------------- bounded stand-in
 def member_names(depth):
     import itertools
-    comps = ["..", ".", "", "a", "dst", "dst-evil", "b.txt"]
+    # "ds": a proper prefix of the destination's name; "jobs.db": a file that exists next to the destination
+    comps = ["..", ".", "", "a", "dst", "dst-evil", "b.txt", "ds", "jobs.db"]
     seps = ["/", "\\"]
     for d in range(1, depth + 1):
         for parts in itertools.product(comps, repeat=d):
@@ -221,6 +231,10 @@ def bounded_run(depth, first_only=True, validate_models=True):
                 shutil.rmtree(parent, ignore_errors=True)
                 os.makedirs(dst_plain)
                 os.makedirs(os.path.join(parent, "dst-evil"))
+                sentinels = [os.path.join(parent, "jobs.db"), os.path.join(parent, "dst-evil", "jobs.db"), os.path.join(base, "jobs.db")]
+                for sp in sentinels:
+                    with open(sp, "w") as fh:
+                        fh.write("kept")
                 dst = {0: dst_plain, 1: dst_plain + "/", 2: os.path.relpath(dst_plain)}[variant]
                 class FakeZip:
                     def infolist(self):
@@ -242,8 +256,14 @@ def bounded_run(depth, first_only=True, validate_models=True):
                 for d, ds, fs in os.walk(base):
                     for f in fs + ds:
                         p = os.path.join(d, f)
-                        if not (p + "/").startswith(dst_plain + "/") and p not in (parent, os.path.join(parent, "dst-evil")):
+                        if not (p + "/").startswith(dst_plain + "/") and p not in (parent, os.path.join(parent, "dst-evil")) and p not in sentinels:
                             bad.append(p)
+                gone = [sp for sp in sentinels if not os.path.isfile(sp) or open(sp).read() != "kept"]
+                if gone:
+                    failures.append({"detail": f"member {name!r} ({outcome}): file(s) outside {dst_plain} removed or overwritten: {gone[:2]}",
+                                     "witness": {"member_filename": name_t, "dst_variant": variant}, "class": "outside-file-touched"})
+                    if first_only:
+                        return n, len(distinct), rejected, failures, samples, model_checked
                 distinct.add((outcome, posixpath.normpath(name)))
                 if len(samples) < 4 and n % 997 == 1:
                     samples.append({"member": name_t, "dst_variant": variant, "outcome": outcome})
@@ -275,7 +295,7 @@ def bounded(chk):
     depth = 3 if chk.tier == "quick" else 5
     n, distinct, rejected, failures, samples, mc = bounded_run(depth)
     chk.bounded_result("extractall_sandbox", n, distinct, True,
-                       f"member names of <= {depth} components over 7 components x 2 separators x 5 prefixes; destination plain/trailing-slash/relative",
+                       f"member names of <= {depth} components over 9 components (among them a proper prefix of the destination's name and the name of a file that exists outside) x 2 separators x 5 prefixes; destination plain/trailing-slash/relative; oracle: nothing new outside the destination, files outside untouched",
                        failures, samples)
     chk.extra["os_path_model_validated_on"] = mc
     chk.extra["bounded_rejected_members"] = rejected
